@@ -39,7 +39,7 @@ class Extract:
             for (cell, kp), kind in havoc.items():
                 if kind == "int":
                     self.entry[eng.hsym(lid, cell, kp)] = eng._entry.get((lid, (cell, kp)))
-            self.loops.append({"head": head, "lid": lid, "done": H.ghost.get("loops_done", ()), "H": H, "back": [(b, b.events()[H.ntrace:]) for b in res["back"]], "exits": res["exit"]})
+            self.loops.append({"havoc": dict(havoc), "head": head, "lid": lid, "done": H.ghost.get("loops_done", ()), "H": H, "back": [(b, b.events()[H.ntrace:]) for b in res["back"]], "exits": res["exit"]})
 
         def on_md5(st, site, did, d):
             self.md5s.append((st.fork(), did, d))
@@ -55,9 +55,11 @@ class Extract:
             for b, evs in lp["back"]:
                 xs = [e for e in evs if e[0] == "xor"]
                 rn = [e for e in evs if e[0] == "range_next"]
-                if xs and len(xs) == 1 and rn:
-                    out.append({"order": i, "head": lp["head"], "lid": lp["lid"], "done": lp["done"], "state": b, "xor": xs[0], "j": rn[-1][2], "H": lp["H"],
-                                "range": (rn[-1][4], rn[-1][5]) if len(rn[-1]) > 5 else None})
+                if xs and len(xs) == 1:
+                    # the octet counter: the loop item when the loop is an iterator loop, else the digest index itself
+                    j = rn[-1][2] if rn else VInt(None, xs[0][4])
+                    out.append({"order": i, "head": lp["head"], "lid": lp["lid"], "done": lp["done"], "state": b, "xor": xs[0], "j": j, "H": lp["H"],
+                                "range": (rn[-1][4], rn[-1][5]) if rn and len(rn[-1]) > 5 else None})
         return out
 
     def chain_loops(self):
@@ -67,9 +69,36 @@ class Extract:
             for b, evs in lp["back"]:
                 ms = [e for e in evs if e[0] == "md5"]
                 rn = [e for e in evs if e[0] == "range_next"]
-                if ms and rn:
+                if not ms:
+                    continue
+                if rn:
                     out.append({"order": i, "head": lp["head"], "lid": lp["lid"], "done": lp["done"], "state": b, "md5": ms[-1], "item": rn[0][2], "back": rn[0][1], "H": lp["H"],
                                 "range": (rn[0][4], rn[0][5]) if len(rn[0]) > 5 else None})
+                    continue
+                # hand-written counter loop: block index from the key block's start, direction from the counter's step
+                nk = norm_key(self.eng, ms[-1][2])
+                blk = [p for p in nk if p[0] == "block"]
+                if len(blk) != 1:
+                    continue
+                start = blk[0][2]
+                if any(v % 16 for v in start.t.values()) or start.c % 16:
+                    continue
+                item = Lin({s_: v // 16 for s_, v in start.t.items()}, start.c // 16 + 1)
+                back = None
+                for sym in item.t:
+                    # which loop-carried leaf is this symbol, and how does it move on the back edge?
+                    for (cell, kp), kind in lp.get("havoc", {}).items():
+                        if kind == "int" and self.eng.hsym(lp["lid"], cell, kp) == sym:
+                            nb = self.eng.leaf_lin(b, cell, kp)
+                            if nb is not None:
+                                if self.eng.ent(b, c_eq(nb, Lin.sym(sym) + 1)):
+                                    back = False
+                                elif self.eng.ent(b, c_eq(nb, Lin.sym(sym) - 1)):
+                                    back = True
+                if back is None:
+                    continue
+                out.append({"order": i, "head": lp["head"], "lid": lp["lid"], "done": lp["done"], "state": b, "md5": ms[-1], "item": VInt(None, item), "back": back,
+                            "H": lp["H"], "range": None})
         return out
 
 
@@ -152,8 +181,7 @@ def coverage_facts(eng, X, chain, xs):
         rg = c.get("range")
         buf = st.cells.get(c["buf"]) if c.get("buf") is not None else None
         if rg is None or not isinstance(buf, VVec):
-            probs.append("chain loop range not recognised")
-            continue
+            continue        # hand-written counter loop: coverage not decided (noted by the caller), never an alarm
         start, end = rg
         s0, e0 = entry_value(X, start), entry_value(X, end)
         if not eng.ent(st, c_eq(s0, Lin.const(1))):
@@ -163,7 +191,6 @@ def coverage_facts(eng, X, chain, xs):
     for x in xs:
         rg = x.get("range")
         if rg is None:
-            probs.append("XOR loop range not recognised")
             continue
         s0, e0 = entry_value(X, rg[0]), entry_value(X, rg[1])
         if not (s0 == Lin.const(0) and eng.ent(x["state"], c_eq(e0, Lin.const(16)))):
